@@ -44,7 +44,8 @@ def run(ctx):
 
 
 def field_effect(ctx, cname, depth=0):
-    """Final value of every self.<field> after <cname>.reverse(), as canonical forms over the initial values (atom '<field>0')."""
+    """Final value of every self.<field> after <cname>.reverse(), as canonical forms over the initial values (atom '<field>0'),
+    for every path through the method: [(condition text, {field: value})]."""
     fn = ctx.fn("%s.reverse" % cname, "R16.1")
     owner = ctx.m.owner("%s.reverse" % cname)
     fields = set(ctx.m.cls(cname).self_fields())
@@ -53,13 +54,29 @@ def field_effect(ctx, cname, depth=0):
     alg = Alg()
     for f in fields:
         alg.atom_map["self.%s" % f] = atom("%s0" % f)
-    run_reverse(ctx, fn, owner, alg, 0)
-    return {f: alg.atom_map.get("self.%s" % f) for f in fields}, fn, owner
+    paths = run_reverse(ctx, fn.body, owner, [(alg, [], False)], 0)
+    return [(" and ".join(conds) or "always", {f: a.atom_map.get("self.%s" % f) for f in fields}) for a, conds, _ in paths], fn, owner
 
 
-def run_reverse(ctx, fn, owner, alg, depth):
-    for st in fn.body:
+def run_reverse(ctx, stmts, owner, states, depth):
+    """states: [(alg, [condition text], returned)] - every statement is applied to every state still running; an `if` forks"""
+    import copy as _copy
+
+    for st in stmts:
+        live = [x for x in states if not x[2]]
+        if not live:
+            break
         if isinstance(st, ast.Expr) and isinstance(st.value, ast.Constant):
+            continue
+        if isinstance(st, ast.If):
+            out = [x for x in states if x[2]]
+            t = ast.unparse(st.test)[:60]
+            for alg, conds, _ in live:
+                a2 = _copy.deepcopy(alg)
+                out += run_reverse(ctx, st.body, owner, [(alg, conds + [t], False)], depth)
+                out += run_reverse(ctx, st.orelse, owner, [(a2, conds + ["not (%s)" % t], False)], depth)
+            states = out
+            ctx.need(len(states) <= 16, "R16.1", "%s.reverse: too many paths" % owner)
             continue
         if isinstance(st, ast.Expr) and isinstance(st.value, ast.Call):
             c = st.value
@@ -71,55 +88,65 @@ def run_reverse(ctx, fn, owner, alg, depth):
                 mro = ctx.m.mro(owner)
                 base = next((k for k in mro[1:] if "reverse" in ctx.m.classes[k].methods), None)
             if base is not None and depth < 3:
-                run_reverse(ctx, ctx.m.classes[base].methods["reverse"], base, alg, depth + 1)
+                done = [x for x in states if x[2]]
+                sub = run_reverse(ctx, ctx.m.classes[base].methods["reverse"].body, base, [(a, cs, False) for a, cs, _ in live], depth + 1)
+                states = done + [(a, cs, False) for a, cs, _ in sub]  # the callee's return ends the callee only
                 continue
             raise AnalysisError("R16.1", "%s.reverse: call not interpreted: %s" % (owner, ast.unparse(st)[:60]))
         if isinstance(st, (ast.Assign, ast.AugAssign)):
-            try:
-                if isinstance(st, ast.AugAssign) and isinstance(st.target, ast.Attribute):
-                    k = ".".join(attr_chain(st.target))
-                    cur, val = alg.ev(st.target), alg.ev(st.value)
-                    new = cur * val if isinstance(st.op, ast.Mult) else cur + val if isinstance(st.op, ast.Add) else cur - val if isinstance(st.op, ast.Sub) else None
-                    if new is None:
-                        raise Uninterpreted("operator")
-                    alg.atom_map[k] = new
-                    continue
-                if not alg.assign(st):
-                    raise Uninterpreted("assignment form")
-            except Uninterpreted as e:
-                raise AnalysisError("R16.1", "%s.reverse: %s not interpreted (%s)" % (owner, ast.unparse(st)[:60], e))
+            for alg, conds, _ in live:
+                try:
+                    if isinstance(st, ast.AugAssign) and isinstance(st.target, ast.Attribute):
+                        k = ".".join(attr_chain(st.target))
+                        cur, val = alg.ev(st.target), alg.ev(st.value)
+                        new = cur * val if isinstance(st.op, ast.Mult) else cur + val if isinstance(st.op, ast.Add) else cur - val if isinstance(st.op, ast.Sub) else None
+                        if new is None:
+                            raise Uninterpreted("operator")
+                        alg.atom_map[k] = new
+                        continue
+                    if not alg.assign(st):
+                        raise Uninterpreted("assignment form")
+                except Uninterpreted as e:
+                    raise AnalysisError("R16.1", "%s.reverse: %s not interpreted (%s)" % (owner, ast.unparse(st)[:60], e))
             continue
         if isinstance(st, ast.Return) and (st.value is None or (isinstance(st.value, ast.Name) and st.value.id == "self")):
-            return
+            states = [(a, cs, True) for a, cs, _ in states]
+            continue
         if isinstance(st, ast.Pass):
             continue
         raise AnalysisError("R16.1", "%s.reverse: statement kind %s not interpreted" % (owner, type(st).__name__))
+    return states
 
 
 def per_class(ctx):
-    eff, base, _ = field_effect(ctx, "PathSegment")
-    ok = eff.get("start") == atom("end0") and eff.get("end") == atom("start0")
-    ctx.ob("R16.1", "PathSegment.reverse", ok, "start <- %s, end <- %s" % (eff.get("start"), eff.get("end")), base.lineno, "reversal exchanges start and end")
+    effs, base, _ = field_effect(ctx, "PathSegment")
+    ok = all(eff.get("start") == atom("end0") and eff.get("end") == atom("start0") for _, eff in effs)
+    ctx.ob("R16.1", "PathSegment.reverse", ok, "; ".join("%s: start <- %s, end <- %s" % (c, eff.get("start"), eff.get("end")) for c, eff in effs), base.lineno, "reversal exchanges start and end")
     from .c02 import point_fields
 
     for cname in SEGMENTS:
         fields = point_fields(ctx, cname)
         controls = sorted(f for f in fields if f.startswith("control"))
-        eff, fn, owner = field_effect(ctx, cname)
-        ok = eff.get("start") == atom("end0") and eff.get("end") == atom("start0")
-        detail = "defined in %s: " % owner + ", ".join("%s <- %s" % (f, eff[f]) for f in sorted(eff) if eff[f] is not None and eff[f] != atom("%s0" % f))
-        if len(controls) == 2:
-            c1, c2 = controls
-            ok = ok and eff.get(c1) == atom("%s0" % c2) and eff.get(c2) == atom("%s0" % c1)
-        elif len(controls) == 1:
-            ok = ok and eff.get(controls[0]) == atom("%s0" % controls[0])
-        if "sweep" in eff:
-            ok = ok and eff.get("sweep") == -atom("sweep0")
-        for f in fields:
-            if f not in ("start", "end") and not f.startswith("control") and f in eff and eff[f] is not None:
-                ok = ok and eff[f] == atom("%s0" % f)
-        ctx.ob("R16.1", "%s.reverse" % cname, ok, detail, fn.lineno,
-               "reversal must exchange start/end (base), exchange ordered control points, and negate a signed extent")
+        effs, fn, owner = field_effect(ctx, cname)
+        ok_all = True
+        details = []
+        for cond, eff in effs:
+            ok = eff.get("start") == atom("end0") and eff.get("end") == atom("start0")
+            detail = ", ".join("%s <- %s" % (f, eff[f]) for f in sorted(eff) if eff[f] is not None and eff[f] != atom("%s0" % f))
+            if len(controls) == 2:
+                c1, c2 = controls
+                ok = ok and eff.get(c1) == atom("%s0" % c2) and eff.get(c2) == atom("%s0" % c1)
+            elif len(controls) == 1:
+                ok = ok and eff.get(controls[0]) == atom("%s0" % controls[0])
+            if "sweep" in eff:
+                ok = ok and eff.get("sweep") == -atom("sweep0")
+            for f in fields:
+                if f not in ("start", "end") and not f.startswith("control") and f in eff and eff[f] is not None:
+                    ok = ok and eff[f] == atom("%s0" % f)
+            ok_all = ok_all and ok
+            details.append(("" if cond == "always" else "when %s: " % cond) + (detail or "nothing changes") + ("" if ok else " [not a reversal]"))
+        ctx.ob("R16.1", "%s.reverse" % cname, ok_all, "defined in %s: " % owner + " | ".join(details), fn.lineno,
+               "reversal must exchange start/end (base), exchange ordered control points, and negate a signed extent - on every path through the method")
 
 
 def order(ctx):
